@@ -12,6 +12,7 @@
   exactly for `Some` / `Ok`, the payload is the one given, and going through either spelling is the identity.
 -/
 import DiplomatModel.Props.C01
+import DiplomatModel.Lemmas.JsSlot
 namespace DiplomatModel.Props.C10
 open DiplomatModel.Lower DiplomatModel.AbiGen DiplomatModel.Props.C05 DiplomatModel.Props.C01
 
@@ -232,5 +233,51 @@ theorem unit_arms_take_no_bytes (w : WTy) (hwf : w.WF) :
   refine ⟨by decide, by decide, ?_, ?_⟩
   · simp [flagOffset, size, align, sizeAlign, hm]
   · simp [size, sizeAlign, hm]
+
+open DiplomatModel.Wire DiplomatModel.JsSlot in
+/-- **JS reads `is_ok` where Rust writes it** (result with an error payload): whatever the success value is — a
+    value in the slot, nothing, or a string that goes through the write buffer — the byte the generated JS reads
+    the flag from is the flag offset of the `DiplomatResult` Rust returns, the slot reaches exactly to that byte,
+    and it is allocated with the record's alignment. -/
+theorem js_result_slot_is_wire_result (ok : Succ) (e : WTy) (hok : (rustOk ok).WF) (he : e.WF) :
+    flagByte ok (some e) = flagOffset (rustOk ok) e
+    ∧ (resultSlot ok (some e)).1 = flagOffset (rustOk ok) e + 1
+    ∧ (resultSlot ok (some e)).2 = align (.result (rustOk ok) e) := by
+  have hea : 0 < (sizeAlign e).2 := align_pos e he
+  have hoa : 0 < (sizeAlign (rustOk ok)).2 := align_pos _ hok
+  cases ok with
+  | unit =>
+    have hm : 0 < max 1 (sizeAlign e).2 := by omega
+    simp only [flagByte, resultSlot, okBeside, okLayout, rustOk, flagOffset, size, align, sizeAlign, divCeil_mul _ _ hm]
+    simp
+  | out t =>
+    simp only [rustOk] at hoa
+    have hm : 0 < max (sizeAlign t).2 (sizeAlign e).2 := by omega
+    simp only [flagByte, resultSlot, okBeside, okLayout, rustOk, flagOffset, size, align, sizeAlign, divCeil_mul _ _ hm]
+    simp
+  | write =>
+    have hm : 0 < max (sizeAlign e).2 (sizeAlign e).2 := by omega
+    simp only [flagByte, resultSlot, okBeside, okLayout, rustOk, flagOffset, size, align, sizeAlign, divCeil_mul _ _ hm]
+    have h1 : max 1 (sizeAlign e).2 = (sizeAlign e).2 := Nat.max_eq_right hea
+    simp [h1]
+
+open DiplomatModel.Wire DiplomatModel.JsSlot in
+/-- … and without an error payload (`Option<T>`, `Result<T, ()>` with a value `T` in the slot): the flag sits
+    directly behind the value. -/
+theorem js_option_slot_is_wire_result (t : WTy) (ht : t.WF) :
+    flagByte (.out t) none = flagOffset t .unit
+    ∧ (resultSlot (.out t) none).2 = align (.result t .unit) := by
+  have hta : 0 < (sizeAlign t).2 := align_pos t ht
+  have hmod : (sizeAlign t).1 % (sizeAlign t).2 = 0 := size_mod_align t ht
+  have h1 : max (sizeAlign t).2 1 = (sizeAlign t).2 := Nat.max_eq_left hta
+  simp only [flagByte, resultSlot, okLayout, flagOffset, size, align, sizeAlign, h1]
+  simp [roundUp_of_mod_zero _ _ hmod]
+
+open DiplomatModel.Wire DiplomatModel.JsSlot in
+/-- the two shapes the rule used to get wrong (finding F41): a unit success beside a one-byte error, and an error
+    more aligned than a larger success whose size is not a multiple of that alignment -/
+example : resultSlot .unit (some (.struct [.scalar 1])) = (2, 1)
+    ∧ resultSlot (.out (.struct [.scalar 1, .scalar 1, .scalar 1, .scalar 1, .scalar 1])) (some (.struct [.scalar 4])) = (9, 4) := by
+  decide
 
 end DiplomatModel.Props.C10
